@@ -153,7 +153,47 @@ def run_method(F, role, method, pending, args_kind="some"):
     except ReturnSignal as r:
         ret = r.val
     guards = [it for it in I.trace.items if it[0] == "guard"]
+    # canonical exits: a failure written as the tail of a match (`None => Err(MissingAssignment)`) instead of `ok_or(..)?`
+    # leaves a conditional return value and a conditionally updated state; peel the failing side off both (the state on
+    # the continuing side is what the transition summaries describe)
+    from .. import analyses as _AN
+
+    rd = I.deref(ret)
+    if isinstance(rd, Ite):
+        chain, final = _AN.exit_chain(I, rd, None)
+        tails = [c_ for c_ in chain if c_[2] == "tail"]
+        if tails and not isinstance(final, Ite):
+            for cond_abort, err_v, _w in tails:
+                project_state(I, st, cond_abort, abort_holds=False)
+                guards = guards + [("guard", cond_abort, err_v, "tail", path)]
+            ret = final
     return {"ret": ret, "state": st, "guards": guards, "I": I, "path": path}
+
+
+def project_state(I, v, cond, abort_holds):
+    """replace, inside a struct value, every ite on `cond` by the side on which `cond` is false (abort_holds=False)"""
+    key = cond.key().lstrip("!")
+    neg = cond.key().startswith("!")
+
+    def pick(x):
+        x = I.deref(x)
+        if isinstance(x, Ite) and isinstance(x.cond, Cond) and x.cond.key().lstrip("!") == key:
+            cond_true_here = (x.cond.key().startswith("!") == neg)  # x.cond is the same polarity as `cond`
+            # we want the side where `cond` is false
+            side = x.b if cond_true_here else x.a
+            return pick(side) if abort_holds is False else pick(x.a if cond_true_here else x.b)
+        if isinstance(x, Struct):
+            for k_ in list(x.fields):
+                x.fields[k_] = pick(x.fields[k_])
+            return x
+        if isinstance(x, Vec):
+            try:
+                return x.map(lambda el: pick(el)) if any(isinstance(I.deref(s_.f(isym("_j"))), Ite) for s_ in x.nonempty_segs()) else x
+            except Exception:
+                return x
+        return x
+
+    pick(v)
 
 
 def var_summary(v):
@@ -304,6 +344,45 @@ def callbacks_rule(ck, F, rule):
         ck.require(ok, rule, f"all-callbacks:{role}", f"every deferred randomized callback must be invoked (one loop over all {ncb} callbacks); loops {[(str(l['n']), str(l['off'])) for l in loops]}, callback invocations {len(users)} (inside a loop: {len(in_star)})", "src/r1cs/" + role + ".rs")
 
 
+def registration_rule(ck, F, rule):
+    """specify_randomized_constraints appends the given callback to the deferred list -- unconditionally, at the end, exactly
+    once -- and returns Ok, on both roles (added after mutation campaign 3: deleting the push survived every check)."""
+    _CUR_F[0] = F
+    pats = {"prover": ("r1cs::prover::Prover", "RandomizableConstraintSystem"), "verifier": ("r1cs::verifier::Verifier", "RandomizableConstraintSystem")}
+    for role, (self_ty, trait) in pats.items():
+        cands = [p_ for imp in F.items["impls"] if imp["self_ty"].startswith(self_ty + "<") and (imp["trait"] or "").split("<")[0].endswith(trait) for p_ in imp["items"] if p_.endswith("::specify_randomized_constraints")]
+        if len(cands) != 1:
+            ck.fail(rule, f"register-callback:{role}", f"specify_randomized_constraints of the {role} not found (candidates {cands})", kind="anchor-missing")
+            continue
+        path = cands[0]
+        ck.fn(path)
+        I = H.new_interp(F)
+        st = state(role, None)
+        ncb = isym("ncb")
+        st.fields["deferred_constraints"] = Vec.atom("cb", ncb, mk=lambda e_: Opaque("callback", id=e_))
+        cb = Opaque("callback", id="new")
+        try:
+            try:
+                ret = I.call_fn(path, [st, cb])
+            except ReturnSignal as r_:
+                ret = r_.val
+        except Unanalysable as u:
+            ck.fail(rule, f"register-callback:{role}", f"unanalysable: {u.msg}", u.where, kind="unanalysable")
+            continue
+        d = I.deref(st.fields["deferred_constraints"])
+        last = None
+        if isinstance(d, Vec) and eq(d.length(), ncb + 1):
+            try:
+                last = I.deref(d.index(ncb))
+            except Unanalysable:
+                last = None
+        # `Box::new(callback)` / `Box<dyn Fn>` coercions are identities for the interpreter
+        ok_last = last is cb or (isinstance(last, Opaque) and last.what == "callback" and last.info.get("id") == "new")
+        okret = isinstance(I.deref(ret), Enum) and I.deref(ret).variant == "Ok"
+        exits = [it for it in AN_flat(I.trace.items) if it[0] in ("guard", "alt")]
+        ck.require(ok_last and okret and not exits, rule, f"register-callback:{role}", f"specify_randomized_constraints must append the callback to the deferred list (length {ncb} -> {ncb}+1, new last element = the callback) and return Ok, unconditionally; list afterwards has length {d.length() if isinstance(d, Vec) else d!r}, last element {last!r}, returns {ret!r}, conditional paths {[str(x[1]) for x in exits]}", FX.short(F.fn(path)["sp"]))
+
+
 def constrain_rules(ck, F, rule):
     _CUR_F[0] = F
     """constrain(lc) appends exactly the given linear combination, unconditionally, on both roles"""
@@ -394,6 +473,7 @@ def body(ck, F, cfg):
     ck.sample({"transition": "allocate, pending=None", "summary": str(summary(F, "verifier", "allocate", None)["ret"])})
     constrain_rules(ck, F, "R16.1")
     callbacks_rule(ck, F, "R16.4")
+    registration_rule(ck, F, "R16.4")
     phase_separator_rule(ck, F, "R16.4")
     # R16.3 half-open gate on the prover
     R = run_method(F, "prover", "allocate", None)
@@ -407,6 +487,17 @@ def body(ck, F, cfg):
     vals = [sec[k_].index(p, bnd) for k_ in ("a_R", "a_O", "a_L")]
     ok = all(isinstance(v_, Sc) for v_ in vals) and eq(vals[0].e, ssym("x")) and eq(vals[1].e, sfun("aL")(p) * ssym("x")) and eq(vals[2].e, sfun("aL")(p))
     ck.require(ok, "R16.3", "close-gate", f"second single allocation must set a_R[p]=x, a_O[p]=a_L[p]*x; got a_R[p]={show(sec['a_R'].index(p, bnd))}, a_O[p]={show(sec['a_O'].index(p, bnd))}")
+    # allocate_multiplier assigns (left, right, left*right) to the new gate in this order (mutation campaign 3: swapping the
+    # destructured pair survived)
+    R = run_method(F, "prover", "allocate_multiplier", None)
+    sec = R["state"].fields["secrets"].fields
+    try:
+        vals = [sec[k_].index(c) for k_ in ("a_L", "a_R", "a_O")]
+        ok = all(isinstance(v_, Sc) for v_ in vals) and eq(vals[0].e, ssym("xl")) and eq(vals[1].e, ssym("xr")) and eq(vals[2].e, ssym("xl") * ssym("xr"))
+        got = f"({show(vals[0])}, {show(vals[1])}, {show(vals[2])})"
+    except Unanalysable as u:
+        ok, got = False, f"unanalysable: {u.msg}"
+    ck.require(ok, "R16.3", "multiplier-gate", f"allocate_multiplier(Some((l, r))) must push (l, r, l*r) onto (a_L, a_R, a_O); got {got}")
     # R16.5 error before state: missing assignment
     for method in ("allocate", "allocate_multiplier"):
         for pend in (None, p):
